@@ -9,7 +9,7 @@ namespace Ptk.C10
 open Ptk.Py
 
 /-- `t` is the text of a cell of the screen (a stored cell or the default character) -/
-def ScreenCell (scr : Screen) (t : Text) : Prop := t = scr.dflt.char ∨ ∃ pc ∈ scr.buf, t = pc.2.char
+def ScreenCell (scr : Screen) (t : CText) : Prop := t = scr.dflt.char ∨ ∃ pc ∈ scr.buf, t = pc.2.char
 
 /-- the write discipline for one call on the output object -/
 def EvOk (scr : Screen) : Ev → Prop
